@@ -125,7 +125,7 @@ fn observe(s: &Sieve, n_lim: usize, segmented: bool) -> Tables {
                 expected_primes.push(c as i32);
             }
             if bad.is_none() {
-                if m as i64 != w as i64 {
+                if c >= 2 && m as i64 != w as i64 {
                     bad = Some(format!("bad mnp[{}]={} want {}", c, m, w));
                 } else if p != wp {
                     bad = Some(format!("bad isp[{}]={} want {}", c, p, wp));
@@ -161,9 +161,11 @@ fn show_fact(v: &[(i32, i32)]) -> String {
     format!("[{}]", parts.join(","))
 }
 
-/// `factorize(n).collect()`, guarded against a runaway iterator (a broken table could loop forever)
-fn factorize(s: &Sieve, n: i32) -> String {
-    match catch(|| {
+/// `factorize(n).collect()`, guarded against a runaway iterator (a broken table could loop forever); returns raw and view:
+/// inside the property's domain (1 <= n <= N) the view is the raw result if it equals the trial-division oracle,
+/// else `oracle-mismatch:<raw>`
+fn factorize(s: &Sieve, n_lim: usize, n: i32) -> (String, String) {
+    let r = catch(|| {
         let mut out = Vec::new();
         for pe in s.factorize(n) {
             out.push(pe);
@@ -172,30 +174,28 @@ fn factorize(s: &Sieve, n: i32) -> String {
             }
         }
         Ok(out)
-    }) {
-        Ok(Ok(v)) => show_fact(&v),
-        Ok(Err(v)) => format!("runaway:{}", show_fact(&v[..4])),
-        Err(e) => e,
-    }
-}
-
-struct Ctx {
-    cache: Option<(usize, Sieve)>,
-}
-
-impl Ctx {
-    fn sieve(&mut self, n: usize) -> Result<&Sieve, String> {
-        let hit = matches!(&self.cache, Some((k, _)) if *k == n);
-        if !hit {
-            self.cache = None;
-            let s = catch(|| Sieve::new(n))?;
-            self.cache = Some((n, s));
+    });
+    match r {
+        Ok(Ok(v)) => {
+            let raw = show_fact(&v);
+            let in_dom = n >= 1 && (n as usize) <= n_lim;
+            let want: Vec<(i32, i32)> = if in_dom { oracle_factorize(n as u64).iter().map(|&(p, e)| (p as i32, e as i32)).collect() } else { vec![] };
+            if in_dom && v != want {
+                let view = format!("oracle-mismatch:{}", raw);
+                (raw, view)
+            } else {
+                (raw.clone(), raw)
+            }
         }
-        Ok(&self.cache.as_ref().unwrap().1)
+        Ok(Err(v)) => {
+            let t = format!("runaway:{}", show_fact(&v[..4]));
+            (t.clone(), t)
+        }
+        Err(e) => (e.clone(), e),
     }
 }
 
-fn run_case(ctx: &mut Ctx, line: &str) -> String {
+fn run_case(line: &str) -> String {
     let toks: Vec<&str> = line.split_whitespace().collect();
     if toks.len() < 2 {
         return "I bad-op | V bad-op".to_string();
@@ -204,7 +204,8 @@ fn run_case(ctx: &mut Ctx, line: &str) -> String {
         Ok(v) => v,
         Err(_) => return "I bad-op | V bad-op".to_string(),
     };
-    let s = match ctx.sieve(n_lim) {
+    // a fresh `Sieve::new` for every case (no harness-side cache: state kept between calls must be rlib's own)
+    let s = &match catch(|| Sieve::new(n_lim)) {
         Ok(s) => s,
         Err(e) => return out1(&e),
     };
@@ -220,7 +221,12 @@ fn run_case(ctx: &mut Ctx, line: &str) -> String {
                     Err(e) => e,
                 })
                 .collect();
-            out1(&format!("[{}]", v.join(",")))
+            // the property speaks about 2 <= n: entries 0 and 1 are masked in the view
+            let mut w = v.clone();
+            for x in w.iter_mut().take(2) {
+                *x = "_".to_string();
+            }
+            out2(&format!("[{}]", v.join(",")), &format!("[{}]", w.join(",")))
         }
         "isp" => {
             let v: String = (0..=n_lim)
@@ -251,13 +257,18 @@ fn run_case(ctx: &mut Ctx, line: &str) -> String {
                     Ok(x) => x.to_string(),
                     Err(e) => e,
                 }),
-                _ => out1(&factorize(s, n)),
+                _ => {
+                    let (raw, view) = factorize(s, n_lim, n);
+                    out2(&raw, &view)
+                }
             }
         }
         "factm" => {
             let ns: Vec<i32> = toks.get(2).map(|t| t.split(',').filter_map(|x| x.parse().ok()).collect()).unwrap_or_default();
-            let v: Vec<String> = ns.iter().map(|&n| factorize(s, n)).collect();
-            out1(&v.join("/"))
+            let rv: Vec<(String, String)> = ns.iter().map(|&n| factorize(s, n_lim, n)).collect();
+            let raws: Vec<&str> = rv.iter().map(|x| x.0.as_str()).collect();
+            let views: Vec<&str> = rv.iter().map(|x| x.1.as_str()).collect();
+            out2(&raws.join("/"), &views.join("/"))
         }
         _ => "I bad-op | V bad-op".to_string(),
     }
@@ -359,11 +370,42 @@ fn fact_samples(rng: &mut SplitMix64, lim: u64, count: usize, st: &mut Stats) ->
 fn gen(args: &Args, emit: &mut dyn FnMut(String), st: &mut Stats) {
     let thorough = args.tier == "thorough";
     let mut rng = SplitMix64::new(args.seed ^ 0xC13);
-    // (1) every limit in [0, 3000]: all tables, all n <= N (hash + entry-by-entry oracle comparison)
-    for n in 0..=3000usize {
+    // (0) state kept between constructions in one process (caches, globals) must not leak: a large table, then smaller
+    //     prime / composite limits cut out of its range, repeats, and growth again
+    for n in [120usize, 113, 113, 112, 7, 120, 121, 2, 3, 3, 97, 96, 0, 1, 127, 31, 128] {
         emit(format!("tab {}", n));
-        st.bump("tab_every_limit");
+        st.bump("tab_history_probe");
+    }
+    for (a, b) in [(200usize, 199usize), (199, 199), (60, 59), (400, 13)] {
+        emit(format!("primes {}", a));
+        emit(format!("primes {}", b));
+        emit(format!("fact {} {}", a, b));
+        emit(format!("mnp {}", b));
+        st.add("history_probe_mixed", 4);
+    }
+    // (1) every limit in [0, 3000]: all tables, all n <= N (hash + entry-by-entry oracle comparison).  Zig-zag order
+    //     3000, 0, 2999, 1, …: every construction is preceded by a much larger or much smaller one
+    for k in 0..=1500usize {
+        let pair = if k == 1500 { vec![1500] } else { vec![3000 - k, k] };
+        for n in pair {
+            emit(format!("tab {}", n));
+            st.bump("tab_every_limit");
+            st.add("table_entries", 3 * (n as u64 + 1));
+        }
+    }
+    // (1b) limits just above 2^17 = 2 * 65536 (the first composites whose cofactor or prime does not fit 16 bits:
+    //      131074 = 2 * 65537) and next to the first prime square above it (367^2 = 134689)
+    for n in [131071usize, 131074, 131075, 134688, 134689, 134690] {
+        emit(format!("tab {}", n));
+        st.bump("tab_above_2_17");
         st.add("table_entries", 3 * (n as u64 + 1));
+    }
+    {
+        let mut v: Vec<u64> = vec![65536, 65537, 131072, 131073, 131074, 131076, 134689, 2 * 65539, 65521 * 2, 139999, 140000];
+        v.extend(fact_samples(&mut rng, 140_000, 120, st));
+        let strs: Vec<String> = v.iter().map(|x| x.to_string()).collect();
+        emit(format!("factm 140000 {}", strs.join(",")));
+        st.bump("factm_above_2_17");
     }
     // (2) whole tables as text for every N <= 300 and for limits adjacent to prime squares
     let mut full: Vec<usize> = (0..=300).collect();
@@ -438,7 +480,6 @@ fn gen(args: &Args, emit: &mut dyn FnMut(String), st: &mut Stats) {
 }
 
 fn main() {
-    let mut ctx = Ctx { cache: None };
     // oracle self-test: the two oracles agree with each other on a window (cheap; guards the harness itself)
     let sg = Segmented::new(5000);
     let w = sg.segment(0, 5000);
@@ -446,5 +487,5 @@ fn main() {
         assert_eq!(w[c as usize], min_fac(c), "oracle self-test");
     }
     assert_eq!(oracle_factorize(360), vec![(2, 3), (3, 2), (5, 1)]);
-    cli(gen, |line| run_case(&mut ctx, line));
+    cli(gen, run_case);
 }
